@@ -9,7 +9,7 @@ from .report import V
 
 _G = {}
 USED_UNITS = {'water': ['umol', 'mL', 'g'], 'nacl': ['umol', 'mmol', 'mg'], 'dmso': ['umol', 'uL', 'mg'],
-              'lipase': ['U', 'mg', 'uL'], 'tea': ['umol', 'mL', 'mg'], 'na2so4': ['umol'], 'lipase_s': ['umol', 'mg']}
+              'lipase': ['U', 'mg', 'uL', 'mU'], 'tea': ['umol', 'mL', 'mg'], 'na2so4': ['umol'], 'lipase_s': ['umol', 'mg']}
 FLOW_UNITS = ['uL', 'mL', 'mg', 'umol', 'U']
 
 
